@@ -257,7 +257,7 @@ fn bool_probe(i: usize, n: u32) -> VT {
 }
 
 macro_rules! bool_kind {
-    ($name:ident, $f:ty, $bk:expr, $ak:expr, $str:literal, $ddk:ty, $zbdd:expr) => {
+    ($name:ident, $f:ty, $bk:expr, $ak:expr, $str:literal, $ddk:ty, $zbdd:expr, $ops:expr, $apply:path, $val:path, $init:expr) => {
         pub struct $name;
         impl HKind for $name {
             type F = $f;
@@ -266,7 +266,7 @@ macro_rules! bool_kind {
             const VALS: usize = 2;
             const N0: u32 = 3;
             const ZBDD: bool = $zbdd;
-            const OPS: &'static [OpDesc] = BOOL_OPS;
+            const OPS: &'static [OpDesc] = $ops;
             fn new_manager(nodes: usize, cache: usize, threads: u32) -> MRef<Self> {
                 <$ddk as dd::BoolKind>::new_manager(nodes, cache, threads)
             }
@@ -281,7 +281,8 @@ macro_rules! bool_kind {
                 <$ddk as dd::BoolKind>::audit(mref, live, rc)
             }
             fn init_tabs() -> [VT; 3] {
-                [tab_to_vt(model::var_tab(0, 3), 3), tab_to_vt(model::var_tab(1, 3), 3), tab_to_vt(model::var_tab(2, 3), 3)]
+                let t: [Tab; 3] = $init;
+                [tab_to_vt(t[0], 3), tab_to_vt(t[1], 3), tab_to_vt(t[2], 3)]
             }
             fn var(mref: &MRef<Self>, v: u32) -> AllocResult<$f> {
                 mref.with_manager_shared(|m| <$f as BooleanFunction>::var(m, v))
@@ -290,10 +291,10 @@ macro_rules! bool_kind {
                 tab_to_vt(model::var_tab(v, n), n)
             }
             fn apply(op: usize, s: &[&$f]) -> AllocResult<$f> {
-                bool_apply(op, s)
+                $apply(op, s)
             }
             fn apply_val(op: usize, s: &[V]) -> V {
-                bool_val(op, s)
+                $val(op, s)
             }
             fn extend(t: &[V]) -> VT {
                 if $zbdd {
@@ -330,9 +331,40 @@ macro_rules! bool_kind {
     };
 }
 
-bool_kind!(HBdd, BDDFunction, BKind::Bdd, AKind::Bdd, "bdd", dd::Bdd, false);
-bool_kind!(HBcdd, BCDDFunction, BKind::Bcdd, AKind::Bcdd, "bcdd", dd::Bcdd, false);
-bool_kind!(HZbdd, ZBDDFunction, BKind::Zbdd, AKind::Zbdd, "zbdd", dd::Zbdd, true);
+const BOOL_INIT: [Tab; 3] = [0xaa, 0xcc, 0xf0]; // x0, x1, x2
+bool_kind!(HBdd, BDDFunction, BKind::Bdd, AKind::Bdd, "bdd", dd::Bdd, false, BOOL_OPS, bool_apply, bool_val, BOOL_INIT);
+bool_kind!(HBcdd, BCDDFunction, BKind::Bcdd, AKind::Bcdd, "bcdd", dd::Bcdd, false, BOOL_OPS, bool_apply, bool_val, BOOL_INIT);
+bool_kind!(HZbdd, ZBDDFunction, BKind::Zbdd, AKind::Zbdd, "zbdd", dd::Zbdd, true, BOOL_OPS, bool_apply, bool_val, BOOL_INIT);
+
+/// ZBDDs through their set-family operations (pointwise on the characteristic table of the family):
+/// A = {{x2}}, B = {{x0}}, C = {∅}; A ∪ C is a node of the manager's own tautology chain, and
+/// "B := A ∪ C; add_vars (B := x_new); B := A ∪ C" repeats an operation across a variable addition
+const SET_OPS: &[OpDesc] = &[
+    OpDesc { name: "B:=A∪C", dst: 1, srcs: &[0, 2] },
+    OpDesc { name: "A:=B∖C", dst: 0, srcs: &[1, 2] },
+    OpDesc { name: "C:=A∩B", dst: 2, srcs: &[0, 1] },
+    OpDesc { name: "A:=A∪B", dst: 0, srcs: &[0, 1] },
+    OpDesc { name: "C:=C∪B", dst: 2, srcs: &[2, 1] },
+];
+const SET_INIT: [Tab; 3] = [1 << 4, 1 << 1, 1 << 0];
+fn set_apply(op: usize, s: &[&ZBDDFunction]) -> AllocResult<ZBDDFunction> {
+    match op {
+        0 | 3 | 4 => s[0].union(s[1]),
+        1 => s[0].diff(s[1]),
+        2 => s[0].intsec(s[1]),
+        _ => unreachable!(),
+    }
+}
+fn set_val(op: usize, s: &[V]) -> V {
+    let b = |x: V| x != 0;
+    (match op {
+        0 | 3 | 4 => b(s[0]) || b(s[1]),
+        1 => b(s[0]) && !b(s[1]),
+        2 => b(s[0]) && b(s[1]),
+        _ => unreachable!(),
+    }) as V
+}
+bool_kind!(HZbddS, ZBDDFunction, BKind::Zbdd, AKind::Zbdd, "zbdds", dd::Zbdd, true, SET_OPS, set_apply, set_val, SET_INIT);
 
 // ---- MTBDD -------------------------------------------------------------------------
 
@@ -1305,6 +1337,7 @@ pub fn run_shard(ctx: &mut Ctx, prop: Prop, depth: usize) {
         "bdd" => ctx.group(&label, |ctx| explore::<HBdd>(ctx, prop, &cfg, &prefix, depth)),
         "bcdd" => ctx.group(&label, |ctx| explore::<HBcdd>(ctx, prop, &cfg, &prefix, depth)),
         "zbdd" => ctx.group(&label, |ctx| explore::<HZbdd>(ctx, prop, &cfg, &prefix, depth)),
+        "zbdds" => ctx.group(&label, |ctx| explore::<HZbddS>(ctx, prop, &cfg, &prefix, depth)),
         "mtbdd" => ctx.group(&label, |ctx| explore::<HMtbdd>(ctx, prop, &cfg, &prefix, depth)),
         "mtbddc" => ctx.group(&label, |ctx| explore::<HMtbddC>(ctx, prop, &cfg, &prefix, depth)),
         "mtbddk" => ctx.group(&label, |ctx| explore::<HMtbddK>(ctx, prop, &cfg, &prefix, depth)),
